@@ -77,6 +77,19 @@ pub fn run(tier: Tier) -> i32 {
     let k = alpha::coeffs(2, 50, if tier.thorough() { Level::Thorough } else { Level::Mid });
     run.par_for(&k, || {}, |&a, l| { if a.abs() > n { for f in 0..=18u8 { case(a, f, l); } } });
     run.stage("coefficient alphabet", json!({"coefficients": k.len(), "scales": 19}));
+    // composed values: a boundary INTEGRAL PART (word / digit-count boundaries +-1) followed by a fraction, at every
+    // scale - the integral and the fractional part are rendered separately, so a boundary of the integral part is
+    // invisible to coefficient boundaries at scale > 0 (seeded change C07-h1: integral part exactly 2^64)
+    let mut ints: Vec<i128> = Vec::new();
+    for b in [8u32, 16, 31, 32, 53, 63, 64, 65, 96] { for d in [-1i128, 0, 1] { ints.push((1i128 << b) + d); } }
+    for e in [9u32, 10, 18, 19, 20] { for d in [-1i128, 0, 1] { ints.push(alpha::pow10(e) + d); } }
+    let mut comp: Vec<(i128, u8)> = Vec::new();
+    for &ip in &ints { for f in 1..=18u8 {
+        let p = alpha::pow10(f as u32);
+        if let Some(base) = ip.checked_mul(p) { for fr in [0i128, 1, p / 2, p - 1] { if let Some(c) = base.checked_add(fr) { if c != i128::MIN { comp.push((c, f)); comp.push((-c, f)); } } } }
+    } }
+    run.par_for(&comp, || {}, |&(a, f), l| case(a, f, l));
+    run.stage("boundary integral parts composed with a fraction", json!({"integral_parts": ints.len(), "scales": 18, "fractions": "0, 1 ulp, one half, all nines", "cases": comp.len()}));
     let mut required = Vec::new();
     for f in 0..=18u64 { required.push(vec![f]); required.push(vec![(1 << 6) | f]); required.push(vec![(1 << 5) | f]); }
     finish(Finish {
